@@ -1576,6 +1576,8 @@ def _dict(it, a, k, n):
     d = VDict({})
     if a:
         o = it.need(a[0])
+        if isinstance(o, VNone):
+            it.raise_("TypeError", node=n)       # dict(None)
         if isinstance(o, VDict) and o.concrete:
             d.items.update(o.items)
         elif isinstance(o, VDict):
